@@ -181,6 +181,91 @@ def do_approx_contract(rep, prog, do):
     return ok_all
 
 
+def approximate_scenarios(rep, prog, deep):
+    """R-term / R-leaf / R-ends for `approximate()` as a whole, whatever drives the subdivision (recursion or an explicit stack):
+    approximate() is interpreted on a four-point spline with `eval` uninterpreted and `halt` answering from a fixed subdivision
+    tree; the points it returns must be eval(a) of the tree's leaves from left to right, followed by the last control point, and
+    halt must be asked about eval(mid) - (eval(a) + eval(b)) / 2 of the node at hand. With `deep`, halt never accepts and the
+    budget is 10 (ilog2 modelled as 0): exactly the 1024 pieces of depth 10 come out - the subdivision stops at the budget."""
+    import re
+    from . import symalg as S, absint as A
+    cfg = prog.config
+    ap = prog.body(APPROX)
+    half = Fraction(1, 2)
+
+    def run(accept, ilog=0):
+        asked = []
+        scell = A.Frame(None)
+        scell.locals[0] = ("adt", ADT, "BezierSpline", [("array", [S.sym("p%d" % i) for i in range(4)])])
+
+        def m_eval(it, args, c, d):
+            t = A.deref_all(it, args[1])
+            if not (isinstance(t, tuple) and t[0] == "f"):
+                raise A.Undecided("eval at a parameter that is not a constant (%r)" % (str(t)[:60],))
+            return ("symop", "eval", t, None)
+
+        def m_halt(it, args, c, d):
+            tup = A.deref_all(it, args[1])
+            arg = A.deref_all(it, tup[1][0]) if isinstance(tup, tuple) and tup[0] == "tuple" and tup[1] else tup
+            try:
+                p_ = S.to_poly(arg)
+            except S.NotPolynomial:
+                raise A.Undecided("halt is asked about something that is not a combination of curve points")
+            node = {}
+            for mono, cf in p_.items():
+                m_ = re.match(r"^\?\('symop', 'eval', \('f', ([-+0-9.e]+)\), None\)$", mono[0]) if len(mono) == 1 else None
+                if m_ is None:
+                    raise A.Undecided("halt is asked about %s" % (str(arg)[:80],))
+                node[float(m_.group(1))] = cf
+            mids = [t for t, cf in node.items() if cf == 1]
+            ends = sorted(t for t, cf in node.items() if cf == -half)
+            ok = len(mids) == 1 and len(ends) == 2 and len(node) == 3 and ends[0] < mids[0] < ends[1] and ends[0] + ends[1] == 2 * mids[0]
+            asked.append((tuple(ends), ok))
+            return int(accept(mids[0] if mids else None, tuple(ends)))
+        it = S.interp(prog, models={"BezierSpline::<T>::eval": m_eval, "ops::function::Fn::call": m_halt, ">::ilog2": lambda *_a: ilog})
+        it.fuel = 20000000
+        r = A.deref_all(it, it.call_body(ap, [("ref", scell, 0, []), ("sym", "HALT")], env={"T": "f32"}))
+        if not (isinstance(r, tuple) and r[0] == "array"):
+            raise A.Undecided("approximate() did not return a vector (%r)" % (str(r)[:60],))
+        return [A.deref_all(it, x) for x in r[1]], asked
+
+    def ev(t):
+        return ("symop", "eval", ("f", float(t)), None)
+    scen = [("halt always accepts", lambda m, e: True, [ev(0.0)], [(0.0, 1.0)]),
+            ("halt accepts [0, .5], [.5, .75] and [.75, 1] only", lambda m, e: e in ((0.0, 0.5), (0.5, 0.75), (0.75, 1.0)),
+             [ev(0.0), ev(0.5), ev(0.75)], [(0.0, 1.0), (0.0, 0.5), (0.5, 1.0), (0.5, 0.75), (0.75, 1.0)])]
+    ok_all = True
+    for name, acc, leaves, nodes in scen:
+        try:
+            out, asked = run(acc)
+        except (A.Undecided, A.Panic) as e:
+            raise common.Infra("C17.R-leaf: approximate() could not be interpreted in the scenario '%s' (%s)" % (name, e))
+        want = leaves + [S.sym("p3")]
+        if out != want:
+            ok_all = False
+            rep.violate("C17.R-leaf", "R-leaf|polyline", ap.where(), "when %s, approximate() returns %s instead of eval(a) of the accepted pieces from left to right followed by the last "
+                        "control point (%s)" % (name, [str(x)[:40] for x in out][:6], [str(x)[:40] for x in want]), config=cfg)
+        if [a_ for a_, _ok in asked] != nodes or not all(ok_ for _a, ok_ in asked):
+            ok_all = False
+            rep.violate("C17.R-leaf", "R-leaf|criterion", ap.where(), "when %s, halt is consulted about the pieces %s (expected %s, each as eval(mid) - (eval(a) + eval(b)) / 2)"
+                        % (name, [a_ for a_, _ok in asked][:8], nodes), config=cfg)
+    n_deep = None
+    if deep:
+        try:
+            out, asked = run(lambda m, e: False, ilog=0)
+        except (A.Undecided, A.Panic) as e:
+            raise common.Infra("C17.R-term: approximate() could not be interpreted with a criterion that never accepts (%s)" % e)
+        n_deep = len(out)
+        want = [ev(k / 1024.0) for k in range(1024)] + [S.sym("p3")]
+        if out != want:
+            ok_all = False
+            rep.violate("C17.R-term", "R-term|budget-exhaustion", ap.where(), "with a criterion that never accepts and a budget of 10, approximate() returns %d points instead of the 1024 "
+                        "pieces of depth 10 plus the last control point: the subdivision does not stop at (or does not reach) the depth budget" % len(out), config=cfg)
+    rep.inst("C17.R-leaf", "approximate() interpreted against fixed subdivision trees (%d scenarios%s): returns eval(a) of the leaves left to right + last control point; "
+             "halt sees eval(mid) - (eval(a)+eval(b))/2 of each node: %s" % (len(scen), "; never-accepting criterion: %d points" % n_deep if n_deep else "", ok_all), config=cfg)
+    return ok_all
+
+
 def P_add(a, b):
     from . import poly as PL
     return PL.padd(a, b)
@@ -191,14 +276,19 @@ def check_config(rep, prog):
     do = prog.body(DO)
     sl = T.Slicer(do)
     selfcalls = [(bi, t) for bi, t in do.calls(lambda c: c["path"] == DO)]
-    rep.floor("C17.selfcalls.%s" % cfg, len(selfcalls), 1, "recursive calls in do_approx")
+    recursive = bool(selfcalls)
+    if not recursive:
+        rep.notes.append("C17: do_approx does not call itself in this tree (the subdivision is driven by a loop): R-term / R-leaf / R-ends(bisection) are decided on "
+                         "approximate() as a whole against fixed subdivision trees, including budget exhaustion")
+    rep.guard(approximate_scenarios, rep, prog, not recursive or rep.tier == "thorough")
     # ---- R-term
     seen = CG.reachable(prog, [do])
     back = [p for p in seen if p != DO and any(True for _b, _t in prog.bodies[p].calls(lambda c: c["path"] == DO or c["path"] == APPROX))]
     rep.inst("C17.R-term", "bodies reachable from do_approx that call back into it (other than itself): %s" % back, config=cfg)
     if back:
         rep.violate("C17.R-term", "R-term|mutual", do.where(), "do_approx is part of a larger recursion cycle through %s" % back, config=cfg)
-    contract = do_approx_contract(rep, prog, do)
+    if recursive:
+        do_approx_contract(rep, prog, do)
     # initial budget
     ap = prog.body(APPROX)
     asl = T.Slicer(ap)
@@ -270,22 +360,37 @@ def check_config(rep, prog):
     rep.inst("C17.R-ends", "step(t, min, max, f) over the orderings of t vs 0 and 1: %s" % table, config=cfg)
     for b_ in bad:
         rep.violate("C17.R-ends", "R-ends|step|%s%s" % (b_[0], b_[1]), st.where(), "step() returns %s where %s is required (t %s 0, t %s 1)" % (b_[2], b_[3], b_[0], b_[1]), config=cfg)
-    # eval delegates to step(t, &self.0[0], last, ..)
+    # BezierSpline::eval itself, interpreted on a seven-point spline over the orderings of t against 0 and 1 (whether it goes through step(),
+    # an if-chain or a match): t <= 0 returns the first control point verbatim, t >= 1 the last one
+    from . import symalg as S2
     ev = prog.body(SP + "BezierSpline::<T>::eval")
-    esl = T.Slicer(ev)
-    sc = [(eb, et) for eb, et in ev.calls(lambda c: c["path"] == SP + "step")]
-    ok_ev = False
-    if len(sc) == 1:
-        eb, et = sc[0]
-        a = [s(esl.operand(x)) for x in et["args"]]
-        first = T.contains(a[1], lambda q: q[0] == "call" and "ops::index::Index" in q[1] and s(q[2][1]) == ("const", "usize", 0)) or \
-            T.contains(a[1], lambda q: q[0] == "call" and q[1].split(" => ")[0].endswith("<impl [T]>::first"))
-        last = T.contains(a[2], lambda q: q[0] == "call" and q[1].split(" => ")[0].endswith("<impl [T]>::last"))
-        ok_ev = a[0] == ("param", 2) and first and last and s(esl.local(0))[0] == "call" and s(esl.local(0))[3] == (ev.path, eb) if len(s(esl.local(0))) > 3 else False
-        ok_ev = a[0] == ("param", 2) and first and last
-    rep.inst("C17.R-ends", "BezierSpline::eval(t) = step(t, &self.0[0], self.0.last(), ..): %s" % ok_ev, config=cfg)
-    if not ok_ev:
-        rep.violate("C17.R-ends", "R-ends|eval-endpoints", ev.where(), "BezierSpline::eval does not clamp to the first/last control point through step()", config=cfg)
+    pts = [S2.sym("p%d" % i) for i in range(7)]
+    bad_ev = []
+    for rel0, rel1, want in (("lt", "lt", pts[0]), ("eq", "lt", pts[0]), ("gt", "eq", pts[6]), ("gt", "gt", pts[6])):
+        tt = ("sym", "t")
+
+        def orc2(op, a_, b_, rel0=rel0, rel1=rel1, tt=tt):
+            for x, y, flip in ((a_, b_, False), (b_, a_, True)):
+                if x == tt and y in (("f", 0.0), ("f", 1.0), 0, 1):
+                    r_ = rel0 if y in (("f", 0.0), 0) else rel1
+                    if flip:
+                        r_ = {"lt": "gt", "eq": "eq", "gt": "lt"}[r_]
+                    return {"lt": {"Lt": 1, "Le": 1, "Gt": 0, "Ge": 0, "Eq": 0, "Ne": 1}, "eq": {"Lt": 0, "Le": 1, "Gt": 0, "Ge": 1, "Eq": 1, "Ne": 0},
+                            "gt": {"Lt": 0, "Le": 0, "Gt": 1, "Ge": 1, "Eq": 0, "Ne": 1}}[r_].get(op)
+            return None
+        scell = A.Frame(None)
+        scell.locals[0] = ("adt", ADT, "BezierSpline", [("array", list(pts))])
+        it2 = S2.interp(prog, oracle=orc2)
+        try:
+            got = A.deref_all(it2, it2.call_body(ev, [("ref", scell, 0, []), tt], env={"T": "f32"}))
+        except (A.Undecided, A.Panic) as e:
+            raise common.Infra("C17.R-ends: BezierSpline::eval could not be interpreted for t %s 0, t %s 1 (%s)" % (rel0, rel1, e))
+        if got != want:
+            bad_ev.append("t %s 0 and t %s 1: returns %s, not the %s control point" % ({"lt": "<", "eq": "=", "gt": ">"}[rel0], {"lt": "<", "eq": "=", "gt": ">"}[rel1], str(got)[:60],
+                                                                                     "first" if want == pts[0] else "last"))
+    rep.inst("C17.R-ends", "BezierSpline::eval(t) returns the first control point verbatim for t <= 0 and the last for t >= 1: %s" % (not bad_ev), config=cfg)
+    if bad_ev:
+        rep.violate("C17.R-ends", "R-ends|eval-endpoints", ev.where(), "BezierSpline::eval does not return the end control points verbatim at and beyond the ends (%s)" % bad_ev[0], config=cfg)
 
     # ---- E-exact: CubicBezier::eval / fast_eval return the end control points VERBATIM at and beyond the ends
     CB = SP + "CubicBezier"
@@ -427,7 +532,9 @@ def algebra_rules(rep, prog):
             try:
                 r = A.deref_all(it, it.call_body(seg_b, [S.ref_to(sp), tv], env={"T": "f32"}))
                 u, pts = A.deref_all(it, r[1][0]), A.deref_all(it, r[1][1])
-                names = [p_[1] for p_ in pts[1]]
+                while isinstance(pts, tuple) and pts[0] == "adt" and len(pts[3]) == 1:
+                    pts = A.deref_all(it, pts[3][0])          # the four points already wrapped in a CubicBezier
+                names = [A.deref_all(it, p_)[1] for p_ in pts[1]]
 
                 def unrem(v):
                     """x % m with x/m = t*n is x - floor(t*n)*m = x - j*m in this scenario (real arithmetic)"""
